@@ -41,16 +41,17 @@ RULE = ('operation scripts over several bloom_filter registers and harness-owned
         '(compatible, incompatible, aliased and self operands, read-only targets), get_bits_used, serialize (bytes/stream) into '
         'a block, deserialize, read-only and writable wraps of blocks (fresh and stale, empty and non-empty images, blocks '
         'that are too small), copies/moves, and re-wraps of memory that was written through an earlier view; every case ends '
-        'with queries of all tracked items on all registers, counts and bit dumps; non-trivial = the case contains at least '
+        'with queries of all tracked items on all registers, counts, bit dumps and the bytes of every memory block; plus fixed regression histories (the four repaired defects incl. an empty filter of 2^32 bits, the aliased-writers known finding); non-trivial = the case contains at least '
         'one insertion and one query, or a set operation, or a wrap/deserialize')
 TRUSTED = ['XXH64 model coq/XXHash64.v (checked against published vectors and values computed by /repo inside Coq, and '
            'against the implementation through every update/query of this check); the theorems hold for ANY hash function',
            'builder::suggest_num_filter_bits / suggest_num_hashes go through libm; their results are read from the '
            'implementation (E line) and passed to the model',
            'the ghost bookkeeping of the protocol-level model (which items must be reported by which register / block after '
-           'copies, serialize, wraps, unions: BloomDefs.wstep fields e_must/b_must/epochs) feeds the oracle and is NOT the '
-           'subject of a theorem; the theorems are about one filter object and its views (BloomProofs.frun / view_of) and about '
-           'the byte-level serialize / deserialize / wrap functions, which are the same definitions wstep executes']
+           'copies, serialize, wraps, unions: BloomDefs.wstep fields e_must/b_must/epochs) feeds the oracle and is not itself '
+           'proved correct in general; the theorems are about one filter object and its views (BloomProofs.frun / view_of), '
+           'the byte-level serialize / deserialize / wrap functions, and the protocol step wstep for one writer per block '
+           '(C15_protocol_*)']
 ASSUMPTIONS = ['the false-positive-rate clause ("stays near the target") is statistical and NOT claimed',
                'images placed in memory blocks are whole images produced by the library (hand-corrupted or truncated images '
                'belong to the deserialization-robustness property, not to C15)',
@@ -497,25 +498,29 @@ def oracle(case, irecs, mrecs):
 FAMILIES = [dict(name='bloom', harness='drv_bloom.cpp', extract='Extract_bloom.v', model='model_bloom', gen=gen, oracle=oracle)]
 
 MANIFEST = dict(
-    level_text=('Theorems (coq/Properties_C15.v, axiom-free) about the executable model of bloom_filter_impl.hpp + bit_array_ops.hpp, for ANY hash '
-                'function and ANY operation history of a filter object (update, query_and_update, union with any bit array, intersect, invert, '
-                'reset, get_bits_used; owned or in caller memory with the count stored at byte 24 modelled): an inserted item with no '
-                'intersect/invert/reset after it is reported by the filter, its copy, deserialize(serialize), read-only and writable wraps of '
-                'the serialized bytes, read-only and writable wraps / deserialize of the caller memory at that time, and by any compatible '
-                'filter after union_with and any further monotone history (C15_no_false_negative_in_any_view; '
-                'C15_no_false_negative_through_bytes goes through the byte-level serialize / parse functions); the count stored in caller '
-                'memory is always the dirty marker or exact; get_bits_used = popcount after any history; query_and_update = prior membership; '
-                'union/intersect/invert = OR/AND/NOT-within-capacity with count = popcount written through; byte layout round trip '
-                '(deserialize/wrap of serialize restores configuration, count/dirty marker and every bit, empty and non-empty images, all '
-                'capacities < 2^35); refusals (incompatible operands, every write through a read-only view, constructor limits, writable wrap '
-                'of an empty image); capacity rounding. The model is the REPAIRED code (fixes/15_*.patch); the four defects of the code '
-                'before the repairs are theorems in coq/Regression_bloom.v (*_refuted). Tie to the code on every run: model (extracted) and '
-                'bloom_filter (ASan/UBSan) execute the same generated scripts; query results, counts, bit dumps, info, refusals, serialized '
-                'sizes and the BYTES of every memory block (serialized images, wrapped memory) are compared exactly, and the property '
-                'predicates are evaluated on the implementation outputs.'),
-    level_note=('Trusted: Coq kernel; hand-written model validated only by the correspondence runs; XXH64 model (theorems are for any hash). '
-                'NOT proved: the ghost bookkeeping of the multi-register protocol model (aliasing of several views of one block, stale views) — '
-                'the theorems are per filter object and its views; interleaved writes through two live writable views of one block violate the '
-                'property in the real code (known finding aliased_view_stale_count_written, needs a design decision). FPR clause statistical, '
-                'not claimed. Filters >= 2^32 bits run only empty in the correspondence.'),
+    level_text=('Theorems (coq/Properties_C15.v, 30, axiom-free) about the executable model of bloom_filter_impl.hpp + bit_array_ops.hpp, for ANY hash '
+                'function. (1) One filter object under ANY operation history (update, query_and_update, union with any bit array, intersect, '
+                'invert, reset, get_bits_used; owned or in caller memory with the count stored at byte 24 modelled): an inserted item with no '
+                'intersect/invert/reset after it is reported by the filter, its copy, deserialize(serialize), read-only and writable wraps of the '
+                'serialized bytes, read-only and writable wraps / deserialize of the caller memory at that time, and by any compatible filter after '
+                'union_with and any further monotone history; the count stored in caller memory is always the dirty marker or exact; get_bits_used '
+                '= popcount; query_and_update = prior membership; union/intersect/invert = OR/AND/NOT-within-capacity with count = popcount written '
+                'through. (2) Byte level: deserialize/wrap of serialize restores configuration, count/dirty marker and every bit (empty and '
+                'non-empty images, every capacity the constructors accept, trailing bytes allowed). (3) The same no-false-negative statement about '
+                'the PROTOCOL STEP that is extracted and run against the code (wstep), for any world: a filter built by initialize_by_size in any '
+                'large-enough block, any history through it, then the filter itself, a FRESH wrap / writable_wrap of the block into any register and '
+                'deserialize of the block all answer 1; an owned filter built by create_by_size, any history, then the filter, every copy/move, '
+                'serialize into any block followed by deserialize (bytes/stream) or wrap/writable_wrap, and union_with into any compatible owned '
+                'filter all answer 1; the step refines the object-level model. (4) Refusals: incompatible operands, every write through a '
+                'read-only view, constructor limits, writable wrap of an empty image; capacity rounding; indices below capacity. The model is '
+                'the REPAIRED code (fixes/15_*.patch, four defects); each defect of the code before the repairs is a theorem in '
+                'coq/Regression_bloom.v (*_refuted, 12 theorems). Tie to the code on every run: model (extracted) and bloom_filter (ASan/UBSan) execute '
+                'the same generated scripts; query results, counts, bit dumps, info, refusals, serialized sizes and the BYTES of every memory block '
+                '(serialized images, wrapped memory) are compared exactly, and the property predicates are evaluated on the implementation outputs.'),
+    level_note=('Trusted: Coq kernel; hand-written model validated only by the correspondence runs; XXH64 model (theorems are for any hash). NOT proved: '
+                'the ghost bookkeeping of the multi-register protocol model in general (several live views of one block written alternately, stale '
+                'views, set operations between views) — the protocol-level theorems cover one writer per block and owned filters; interleaved '
+                'query_and_update through two live writable views of one block violates the property in the real code (known finding '
+                'aliased_view_stale_count_written, needs a design decision). FPR clause statistical, not claimed. Filters of 2^32 bits run only '
+                'empty in the correspondence (sanitizer allocation cap); larger ones only in the theorems.'),
     design_ref='DESIGN.md section 5 C15')
